@@ -32,7 +32,7 @@ PID = "C20"
 RULE = (
     "traversal: all attached trees <= N nodes (+ a 13-wide tuple tree), every node as start, skip_self x all (prune, filter) "
     "subset pairs for <= 3 positions (families beyond) x dfs / dfs bottom-up / bfs, gather over class sets.  xpath: all step "
-    "sequences of length 1-2 over the full alphabet and length 3 over a reduced one x shaped legacy trees x every node; all token "
+    "sequences of length 1-2 over the full alphabet and length 3 over a reduced one x shaped legacy trees x every node, the length-3 family also x every tree with <= 4 nodes; all token "
     "strings <= 4 tokens for rejection.  states = distinct (tree, start) and (xpath, tree) cases; transitions = traversal runs and "
     "match calls compared with the references; non-trivial = traversal cases with >= 2 positions and a non-empty prune set, and "
     "(xpath, tree) pairs matched by a non-empty proper subset of the nodes"
@@ -205,7 +205,7 @@ def is_instance(cname, cls):
     return cls == "AwareASTNode" or U.isinstance(cname, cls)
 
 
-def check_xpath(rec, tcs, steps, text):
+def check_xpath(rec, tcs, steps, text, family="shaped"):
     rec.count("evaluations")
     try:
         xp = ASTXpath(text)
@@ -222,7 +222,7 @@ def check_xpath(rec, tcs, steps, text):
             got = xp.match(tc.index[p])
             if got is not exp:
                 kind = "index>=10" if any(s[2] is not None and s[2] >= 10 for s in steps) else "semantics"
-                rec.violation(f"C20|xpath|match|{kind}", {"xpath": text, "tree": tc.d, "node": _pp(p)}, f"legacy match({_pp(p)}) is {got}, documented semantics say {exp}")
+                rec.violation(f"C20|xpath|match|{kind}", {"xpath": text, "tree": tc.d, "node": _pp(p), "family": family}, f"legacy match({_pp(p)}) is {got}, documented semantics say {exp}")
         if 0 < hits < len(tc.pos):
             rec.count("nontrivial")
         rec.outcome(f"xpath-hits:{min(hits, 5)}")
@@ -335,13 +335,24 @@ def run_shard(cfg):
     tcs = [TreeCase(d) for d in shaped()]
     fams = [RX.paths(1, FIELDS, INDICES, CLASSES), RX.paths(2, FIELDS, INDICES, CLASSES),
             RX.paths(3, [None, "items", "child"], [None, 1], [None, "GL", "GI"])]
-    for fam in (fams if cfg["tier"] == "thorough" else fams[:2] + [RX.paths(3, [None, "child"], [None], [None, "GL", "GI"])]):
+    fams = [list(f) for f in (fams if cfg["tier"] == "thorough" else fams[:2] + [RX.paths(3, [None, "child"], [None], [None, "GL", "GI"])])]
+    for fam in fams:
         for steps in fam:
             for text in dict.fromkeys([RX.render(steps)] + ([RX.render(steps, first_relative=True)] if steps[0][0] else [])):
                 idx += 1
                 if idx % of == k:
                     rec.rank = 10**6 + idx
                     check_xpath(rec, tcs, steps, text)
+    # the three-step family again on EVERY tree with <= 4 nodes (the shaped trees above have few heterogeneous chains: a
+    # step that must be the direct parent of the next one is only told apart from 'any ancestor' on chains of 4)
+    small = [TreeCase(d) for n in range(1, 5) for d in U.trees(n)]
+    rec.extra["xpath_small_trees"] = len(small)
+    for steps in fams[2]:
+        for text in dict.fromkeys([RX.render(steps)] + ([RX.render(steps, first_relative=True)] if steps[0][0] else [])):
+            idx += 1
+            if idx % of == k:
+                rec.rank = 2 * 10**6 + idx
+                check_xpath(rec, small, steps, text, family="small")
     # malformed texts: only the legacy definition error may escape
     for n in range(1, (4 if cfg["tier"] == "thorough" else 3) + 1):
         for combo in itertools.product(XTOK, repeat=n):
@@ -369,8 +380,8 @@ def replay(case, cfg):
         from .c07 import parse_rendered
 
         N._nodes.clear()
-        tcs = [TreeCase(d) for d in shaped()]
-        check_xpath(rec, tcs, parse_rendered(case["xpath"]), case["xpath"])
+        tcs = [TreeCase(d) for d in shaped()] if case.get("family", "shaped") == "shaped" else [TreeCase(case["tree"])]
+        check_xpath(rec, tcs, parse_rendered(case["xpath"]), case["xpath"], family=case.get("family", "shaped"))
     elif "text" in case:
         try:
             ASTXpath(case["text"])
